@@ -1156,6 +1156,33 @@ func L2Views(thorough bool) []MethodCase {
 		t.View = "tiny"
 		add(t, []*TypeDef{td}, map[string]string{"shape": "fixed-view"})
 	}
+	// views fixed in the design on a type whose default view omits a REQUIRED attribute: the
+	// explicit "default", another view, on the type itself and on a collection of it
+	for _, coll := range []bool{false, true} {
+		for _, fixed := range []string{"default", "full", "tiny"} {
+			sfx := fixed
+			if coll {
+				sfx += "Coll"
+			}
+			td := &TypeDef{Name: "Ef" + strings.Title(sfx), Kind: "result",
+				Attrs:    []*Attr{A("ea", P(KString)), A("eb", P(KInt)), A("ec", P(KString))},
+				Required: []string{"ea", "ec"},
+				Views:    []View{{Name: "default", Attrs: []string{"ea", "eb"}}, {Name: "full", Attrs: []string{"ea", "eb", "ec"}}, {Name: "tiny", Attrs: []string{"ea"}}}}
+			defs := []*TypeDef{td}
+			t := User(td.Name)
+			if coll {
+				c := &TypeDef{Name: td.Name + "Collection", Kind: "collection", Collection: td.Name}
+				defs = append(defs, c)
+				t = User(c.Name)
+			}
+			t.View = fixed
+			shape := "fixed-view-required-outside-default"
+			if coll {
+				shape += "-collection"
+			}
+			add(t, defs, map[string]string{"shape": shape, "fixed": fixed})
+		}
+	}
 	// single default view only
 	{
 		td := &TypeDef{Name: "RtOne", Kind: "result",
